@@ -56,6 +56,12 @@ CORPUS = [
     "conv T0:2.36.24.0,8.100.0.0,7.0.0.0,13.5.0.0 T100:4.0.0.0,8.101.0.0,5.0.0.0,2.38.6.0,6.3.0.0 T101:8.102.0.0,3.0.4.2 T102:2.50.1.1",
     "conv T0:2.36.24.0,7.0.0.0,2.38.24.0,7.0.0.0,2.40.24.0",     # two loop points: the last one counts (outside the proved fragment, judged by the oracle)
     "conv T0:8.1.0.0,2.36.24.0 T1:2.38.24.0,7.0.0.0,2.40.24.0",  # D24 (known): a call to a channel track that has a loop point never returns
+    # drum mode inside the oracle's domain (routine ids < 94, routine notes with an on-time)
+    "conv T0:26.1.0.0,2.80.6.2,2.81.3.1,26.0.0.0,2.36.3.1 T80:13.7.0.0,2.40.1.0 T81:21.1.0.0,4.0.0.0,14.1.0.0,6.2.0.0,2.41.1.0,2.42.1.0",
+    "conv T0:2.80.4.0,7.0.0.0,26.1.0.0,4.0.0.0,2.80.6.2,5.0.0.0,2.80.3.1,6.3.0.0,26.0.0.0 T80:13.7.0.0,2.40.1.0",
+    "conv T0:26.1.0.0,7.0.0.0,2.81.1.1,26.0.0.0 T81:4.0.0.0,6.2.0.0,2.2.1.0",   # D25 (known): replayed in the other drum-mode state
+    "conv T0:4.0.0.0,2.36.24.0,26.1.0.0,6.2.0.0 T36:13.7.0.0,2.40.1.0,2.41.1.0",  # D25 (known): drum mode switched on inside a loop
+    "conv T0:26.1.0.0,8.100.0.0,26.0.0.0 T100:2.36.1.1 T36:13.7.0.0,2.40.1.0",     # D25 (known): notes of a subroutine called in drum mode
 ]
 
 DURS = [1, 2, 127, 128, 129, 256, 65535]
@@ -141,13 +147,20 @@ def _cases_orig(rng, tier):
                 song[t] = evs[:k] + [g.ev("SEGNO")] + evs[k:]
                 tags.add("segno")
         if rng.random() < 0.2:
-            song[200] = [g.ev("VOL", 7), g.ev("NOTE", 40, 0, 0)]
-            song[201] = [g.ev("PAN", 1), g.ev("LOOP_START"), g.ev("VOL_REL", 1), g.ev("LOOP_END", 2), g.ev("NOTE", 41, 0, 0)]
-            evs = [g.ev("DRUM_MODE", 1)]
+            # routine ids below 94 and routine notes with an on-time: inside Timeline.inDomain (with ids 200/201
+            # and zero-length routine notes every drum case was skipped by the judge)
+            song[80] = [g.ev("VOL", 7), g.ev("NOTE", 40, 1, 0)]
+            song[81] = [g.ev("PAN", 1), g.ev("LOOP_START"), g.ev("VOL_REL", 1), g.ev("LOOP_END", 2), g.ev("NOTE", 41, 1, 0)]
+            evs = []
             for e in song[0]:
                 if e[0] == T["NOTE"]:
-                    e = (e[0], rng.choice([200, 201]), e[2], e[3])
+                    e = (e[0], rng.choice([80, 81]), e[2], e[3])
                 evs.append(e)
+            # drum mode is switched on behind the loop point (so that the replayed section starts in the state it was
+            # written in); one case in five switches it on at the start of the track: with a loop point that is D25
+            segs = [i for i, e in enumerate(evs) if e[0] == T["SEGNO"]]
+            at = segs[-1] + 1 if segs and rng.random() < 0.8 else 0
+            evs = evs[:at] + [g.ev("DRUM_MODE", 1)] + evs[at:]
             song[0] = evs + [g.ev("DRUM_MODE", 0), g.ev("NOTE", 12, 3, 1)]
             for sid in (100, 101):
                 if sid in song:
@@ -240,6 +253,103 @@ def segno_in_callee(req):
     return False
 
 
+def drum_dynamic(req, budget=60000):
+    """D25: some note is reached in a drum-mode state (execution order: the Player and the MDSDRV flag byte) that
+    differs from the state the track writer had when it wrote the note (text order, every writer starting with
+    drum mode off).  Played the way Basic_Player does: loops, breaks, calls, drum routines, the loop-back once."""
+    try:
+        song = songgen.parse_request_song(req)
+        T = songgen.event_types()
+    except Exception:
+        return False
+    static = {}
+    for tid, evs in song.items():
+        d, st = False, []
+        for e in evs:
+            st.append(d)
+            if e[0] == T["DRUM_MODE"]:
+                d = e[1] != 0
+        static[tid] = st
+
+    class Bad(Exception):
+        pass
+
+    steps = [0]
+
+    def match_end(evs, i):
+        depth = 0
+        while i < len(evs):
+            if evs[i][0] == T["LOOP_START"]: depth += 1
+            if evs[i][0] == T["LOOP_END"]:
+                if depth == 0: return i
+                depth -= 1
+            i += 1
+        raise Bad()
+
+    def play(tid, start, drum, routine, depth):
+        """-> drum state afterwards; raises StopIteration-like tuple for the routine's note"""
+        if depth > 12 or tid not in song: raise Bad()
+        evs = song[tid]
+        stack = []
+        i = start
+        while i < len(evs):
+            steps[0] += 1
+            if steps[0] > budget: raise Bad()
+            e = evs[i]
+            t = e[0]
+            if t == T["LOOP_START"]:
+                stack.append([i, None])
+            elif t == T["LOOP_END"]:
+                if not stack: raise Bad()
+                if stack[-1][1] is None: stack[-1][1] = e[1]
+                stack[-1][1] -= 1
+                if stack[-1][1] > 0:
+                    i = stack[-1][0]
+                else:
+                    stack.pop()
+            elif t == T["LOOP_BREAK"]:
+                if not stack: raise Bad()
+                j = match_end(evs, i + 1)
+                cnt = stack[-1][1] if stack[-1][1] is not None else evs[j][1]
+                if cnt == 1:
+                    stack.pop()
+                    i = j
+            elif t == T["JUMP"]:
+                drum = play(e[1] % 65536, 0, drum, False, depth + 1)
+            elif t == T["DRUM_MODE"]:
+                drum = e[1] != 0
+            elif t == T["NOTE"]:
+                if routine:
+                    if drum: return ("note", drum)
+                    raise Found()
+                if drum != static[tid][i]: raise Found()
+                if drum:
+                    r = play(e[1] % 65536, 0, drum, True, depth + 1)
+                    if not (isinstance(r, tuple)): raise Bad()
+                    drum = r[1]
+            elif t == T["END"]:
+                break
+            i += 1
+        if routine: raise Bad()
+        return drum
+
+    class Found(Exception):
+        pass
+
+    try:
+        for tid in song:
+            if tid < 16:
+                d = play(tid, 0, False, False, 0)
+                segs = [i for i, e in enumerate(song[tid]) if e[0] == T["SEGNO"]]
+                if segs:
+                    play(tid, segs[-1] + 1, d, False, 0)
+    except Found:
+        return True
+    except (Bad, RecursionError):
+        return False
+    return False
+
+
 def finding_key(case, impl, judge):
     if impl.startswith("crash") or impl == "timeout" or impl.startswith("uncaught"):
         m = re.search(r"(\w+\.cpp:\d+)", impl)
@@ -251,6 +361,8 @@ def finding_key(case, impl, judge):
         m = re.search(r"251\.(\d+)", impl)
         if any(int(x) > 255 for x in re.findall(r"[;:|]251\.(\d+)", impl)):
             return "optimised:loop-count>255"
+    if case.req.startswith("conv ") and drum_dynamic(case.req):
+        return "drum-mode-dynamic"
     if "interpreter stopped" in judge:
         m = re.search(r"stopped with Ctrmml.Seq.Stop.(\w+)", judge)
         return "stream-broken:" + (m.group(1) if m else "x")
